@@ -7,6 +7,7 @@
 -/
 import Ladybug.DrvCore
 import Ladybug.Model.AP
+import Ladybug.Model.APObj
 
 open Drv Cal
 
@@ -71,8 +72,89 @@ def parseKV : List String → Option (List (String × Int))
         | _, _ => none
     | _ => none
 
+
+/-! ### Histories (round 3): `hist <8 period tokens> ; <wop> ; <wop> …` answers the outputs of
+`World.outs` step by step, joined by ` | `. -/
+
+def showOut : AP.Out → String
+  | .nats l => showList l
+  | .dts l => showDTs l
+  | .nat n => s!"ok {n}"
+  | .bool b => "ok " ++ showBool b
+  | .triples l => "ok " ++ joinSp (l.map fun t => s!"{t.1}-{t.2.1}-{t.2.2}")
+  | .str s => "ok " ++ s
+  | .kv l => "ok " ++ joinSp (l.map fun p => p.1 ++ "=" ++ toString p.2)
+  | .flds ap rev ovn ann st en step =>
+    s!"ok {ap.st_month} {ap.st_day} {ap.st_hour} {ap.end_month} {ap.end_day} {ap.end_hour} {ap.timestep} " ++
+    s!"{showBool ap.leap} {showBool rev} {showBool ovn} {showBool ann} {st} {en} {step}"
+  | .made r => showAP r
+  | .refused cls => "err:" ++ cls
+  | .unit => "ok"
+
+def op? : List String → Option AP.Op
+  | ["moys"] => some .moys
+  | ["hoys"] => some .hoys
+  | ["hoys_int"] => some .hoysInt
+  | ["datetimes"] => some .datetimes
+  | ["len"] => some .len
+  | ["doys"] => some .doys
+  | ["months"] => some .months
+  | ["mph"] => some .mph
+  | ["included", m] => m.toNat?.map .included
+  | ["possible", m] => m.toNat?.map .possible
+  | ["repr"] => some .repr
+  | ["to_dict"] => some .toDict
+  | ["fields"] => some .fields
+  | ["duplicate"] => some .duplicate
+  | ["set_attr"] => some .setAttr
+  | ["included_bad"] => some .includedBad
+  | ["possible_bad"] => some .possibleBad
+  | ["mutate_result"] => some .mutateResult
+  | _ => none
+
+def wop? : List String → Option AP.WOp
+  | "on" :: i :: rest => do
+    let i ← i.toNat?
+    let op ← op? rest
+    pure (.on i op)
+  | ["new", a, b, c, d, e, f, g, l] => do
+    let a ← optInt? a
+    let b ← optInt? b
+    let c ← optInt? c
+    let d ← optInt? d
+    let e ← optInt? e
+    let f ← optInt? f
+    let g ← optInt? g
+    let l ← bool? l
+    pure (.new a b c d e f g l)
+  | ["dup", i] => i.toNat?.map .dup
+  | ["via_string", i] => i.toNat?.map .viaString
+  | ["via_dict", i] => i.toNat?.map .viaDict
+  | ["via_start_end", i] => i.toNat?.map .viaStartEnd
+  | ["eq", i, j] => do
+    let i ← i.toNat?
+    let j ← j.toNat?
+    pure (.eq i j)
+  | _ => none
+
+/-- Split a token list at the `;` tokens. -/
+def splitSemi (toks : List String) : List (List String) :=
+  let r := toks.foldl (fun (acc : List (List String) × List String) t =>
+    if t = ";" then (acc.2.reverse :: acc.1, []) else (acc.1, t :: acc.2)) ([], [])
+  (r.2.reverse :: r.1).reverse
+
+def hist (toks : List String) : String :=
+  match splitSemi toks with
+  | [] => "bad-op"
+  | first :: rest =>
+    match period? first, rest.mapM wop? with
+    | some (.ok ap), some ops => " | ".intercalate ((AP.World.outs [AP.fresh ap] ops).map showOut)
+    | some (.error e), some _ => showErr e
+    | _, _ => "bad-op"
+
 def handle (toks : List String) : String :=
   match toks with
+  | "hist" :: rest => hist rest
   | "from_string" :: rest => showAP (AP.fromString (" ".intercalate rest))
   | "from_dict" :: rest =>
     match parseKV rest with
